@@ -188,17 +188,24 @@ def run_prop(prop, tier, seed):
         rep.tlc(c.run_tlc("TsrmMC.tla", "TsrmMCfork.cfg"))
         rep.cov["vacuity_guards"] = {"no fork handlers": c.run_tlc("TsrmMC.tla", "TsrmDefect_nofork_deadlock.cfg", expect_violation=True).violated,
                                      "child keeps inherited lock": c.run_tlc("TsrmMC.tla", "TsrmDefect_keeplock_deadlock.cfg", expect_violation=True).violated}
-        plans = [("T2", 2, 1, 1, "Fork1", None), ("T3", 3, 1, 1, "Fork1", 2500)]
+        # the last plan is sampled with TLC -simulate (its state graph is too large to enumerate): two threads inside calls when the third forks
+        plans = [("T2", 2, 1, 1, "Fork1", None), ("T3", 3, 1, 1, "Fork1", 1500), ("T3", 3, 1, 2, "Fork1", 500, 150)]
         if tier == "thorough":
-            plans = [("T2", 2, 1, 2, "Fork1", 12000), ("T3", 3, 1, 1, "Fork1", None), ("T2", 2, 2, 1, "Fork1", 6000)]
+            plans = [("T2", 2, 1, 2, "Fork1", 12000), ("T3", 3, 1, 1, "Fork1", None), ("T2", 2, 2, 1, "Fork1", 6000), ("T3", 3, 1, 2, "Fork1", 12000, 1500), ("T4", 4, 1, 3, "Fork1", 6000, 800)]
     total, nontriv, drifts = 0, 0, 0
     seen_sigs = {}
-    for (tname, nt, nc, k, forkers, cap) in plans:
+    for plan in plans:
+        (tname, nt, nc, k, forkers, cap), sim = plan[:6], (plan[6] if len(plan) > 6 else None)
         cfg = gen_cfg("TsrmGen_%s_%d_%d_%s" % (tname, nc, k, forkers), tname, nc, k, forkers)
-        g = c.run_tlc("TsrmMC.tla", cfg, env={"SECTIONS_FILE": secfile}, heap="24g", timeout=2400)
+        if sim:
+            g = c.run_tlc("TsrmMC.tla", cfg, env={"SECTIONS_FILE": secfile}, heap="8g", timeout=2400, simulate=sim, depth=400, seed=seed, workers=8)
+        else:
+            g = c.run_tlc("TsrmMC.tla", cfg, env={"SECTIONS_FILE": secfile}, heap="24g", timeout=2400)
         os.unlink(os.path.join(c.SPEC, cfg))
         rep.tlc(g)
         hists = [json.loads(x) for x in g.printed]
+        if sim:
+            hists = [json.loads(x) for x in sorted(set(g.printed))]          # random walks repeat themselves
         if cap and len(hists) > cap:
             rnd.shuffle(hists)
             hists = hists[:cap]
